@@ -213,6 +213,18 @@ def agg_statements():
                     for limit in (None, 1):
                         stmt = select([(col('k'), None), (s, 's'), (c, 'c')], from_='t', group_by=A.GroupBy([col('k')], None), order_by=ob, limit=limit)
                         out.append((f'agg-{form}|{n}|{"".join("D" if d == DESC else "A" for d in dirs)}||{"limit" if limit else ""}', stmt))
+    # several grouping keys that are NOT selected, ordered by one of them (first / later) or by two of them
+    mi = F('min', col('id'))
+    lk, nv = F('length', col('k')), A.Neg(col('v'))
+    for gtag, vis, gkeys in (('kv', [], [col('k'), col('v')]), ('k-lk-v', [], [col('k'), lk, col('v')]), ('vis-k+lk-v', [(col('k'), None)], [col('k'), lk, col('v')]),
+                             ('vis-k+v-nv-lk', [(col('k'), None)], [col('k'), col('v'), nv, lk])):
+        hidden = [g for g in gkeys if not any(g == e for e, _ in vis)]
+        for obs in [(h,) for h in hidden] + [(hidden[-1], hidden[0])]:
+            for dirs in itertools.product([ASC, DESC], repeat=len(obs)):
+                for limit in (None, 2):
+                    stmt = select(vis + [(c, 'c'), (mi, 'i')], from_='t', group_by=A.GroupBy(list(gkeys), None),
+                                  order_by=[A.OrderBy(o, d) for o, d in zip(obs, dirs)], limit=limit)
+                    out.append((f'agg-hidden-keys-{gtag}-{"+".join(str(hidden.index(o)) for o in obs)}|{len(obs)}|{"".join("D" if d == DESC else "A" for d in dirs)}||{"limit" if limit else ""}', stmt))
     # DISTINCT over a grouped query whose grouping key is NOT selected: different groups may give equal visible rows
     gb = A.GroupBy([col('k')], None)
     for tname, targets in (('c', [(c, 'c')]), ('s', [(s, 's')]), ('sc', [(s, 's'), (c, 'c')]), ('kc', [(col('k'), None), (c, 'c')])):
